@@ -17,6 +17,7 @@ def run(F, R, ctx):
     compaction_rule(F, R)
     stats_flow_rule(F, R)
     entry_cleanup_rule(F, R)
+    queue_entry_rule(F, R)
 
 
 def _run(F, R, ctx):
@@ -297,3 +298,72 @@ def entry_cleanup_rule(F, R):
                "SteelThread.stack, which every collection uses as roots, so whatever they referenced is never freed"
                % fn.short(), fn.loc(fn.blocks[trunc[0]].get("line")), sample=True)
     R.floor("C19.t", "native entries that cut the stack back", n, 1)
+
+
+def _map_field(fn, local):
+    for src in lib.alias_sources(fn, local):
+        m = re.search(r"\)\.(\w+)$", src)
+        if m:
+            return m.group(1)
+    return None
+
+
+def queue_entry_rule(F, R):
+    R.rule("C19.q", "steel-rc: a queue of deferred cross-thread decrements is never thrown away: every DashMap::insert into one of "
+                    "the merge-queue maps (values: Vec<Wrapper>) either lies on the absent side of a lookup of the same map "
+                    "(contains_key false / get, get_mut None) and on no path from its present side, or hands the displaced queue "
+                    "on (the returned previous value is used). The objects in a displaced queue keep their queued flag, are never "
+                    "queued again and never merged: what they hold is never released")
+    n = 0
+    for name, fn in sorted(F.fns.items()):
+        if not name.startswith("steel_rc::"):
+            continue
+        for i, b in fn.calls():
+            if not re.search(r"DashMap<K,V,S>\}::insert$", b["callee"]) or not any("Wrapper" in t for t in (b.get("targs") or [])):
+                continue
+            n += 1
+            fld = _map_field(fn, b["args"][0])
+            dom = fn.dominators().get(i, set())
+            ok = False
+            for l, lb in fn.calls():
+                if l not in dom or not re.search(r"DashMap<K,V,S>\}::(contains_key|get|get_mut)$", lb["callee"]):
+                    continue
+                if _map_field(fn, lb["args"][0]) != fld:
+                    continue
+                nxt, hops, sw = lb.get("ret"), 0, None
+                while nxt is not None and hops < 5:
+                    nb = fn.blocks[nxt]
+                    if nb["k"] == "switch":
+                        sw = nb
+                        break
+                    if len(fn.succ(nxt)) == 1:
+                        nxt, hops = fn.succ(nxt)[0], hops + 1
+                        continue
+                    break
+                if not sw:
+                    continue
+                if str(sw.get("on", "")).startswith("enum:Option"):
+                    present = [t for v, t in sw["targets"] if v == "Some"]
+                    absent = [t for t in fn.succ(nxt) if t not in present]
+                else:
+                    absent = [t for v, t in sw["targets"] if v in ("0", "None")]
+                    present = [t for t in fn.succ(nxt) if t not in absent]
+                if absent and i in (fn.reachable_from(absent) | set(absent)) and i not in (fn.reachable_from(present) | set(present)):
+                    ok = True
+            if not ok:
+                dest = b["dest"]
+                alias = {dest}
+                for _, _, e in fn.events("mv"):
+                    if e[2] in alias or e[2].split(".")[0] in alias or re.sub(r"^\(\*?(_\d+).*", r"\1", e[2]) in alias:
+                        alias.add(e[1].split(".")[0])
+                for j in fn.reachable_from(fn.succ(i)):
+                    jb = fn.blocks[j]
+                    if jb["k"] == "call" and any(a in alias for a in jb["args"]):
+                        ok = True
+            R.inst("C19.q", "%s / insert into QueueHandle.%s does not displace a queue" % (fn.short(), fld), ok,
+                   "%s inserts a queue under a key of QueueHandle.%s (line %s) without having found the key absent, and drops what "
+                   "the insert returns: when the thread is already registered, the deferred decrements waiting in its queue are "
+                   "discarded — their objects stay flagged as queued, are never merged, and everything they hold leaks (a driver "
+                   "thread that spawns workers and registers again before its next allocation grows by the workers' closures "
+                   "every round)" % (fn.short(), fld, b.get("line")), fn.loc(b.get("line")), sample=True)
+    R.floor("C19.q", "inserts into the merge-queue maps", n, 2)
